@@ -2,7 +2,7 @@
 From Coq Require Extraction.
 From Coq Require Import ExtrOcamlBasic.
 From Coq Require Import NArith ZArith List.
-From PTQ Require Import Base.Bytes Base.Result Base.Bits Base.Sha256 Spec.Crc Model.Crc Model.Cell Spec.CellRepr Model.Inst Model.Builder Model.Typed Spec.TlbPrim Spec.TlbVal Model.Hashmap Spec.Hashmap Model.Address.
+From PTQ Require Import Base.Bytes Base.Result Base.Bits Base.Sha256 Spec.Crc Model.Crc Model.Cell Spec.CellRepr Model.Inst Model.Builder Model.Typed Spec.TlbPrim Spec.TlbVal Model.Hashmap Spec.Hashmap Model.Address Model.Signatures Model.Adnl.
 
 Extraction "Extract/model.ml"
   N.add N.mul N.of_nat N.to_nat Z.add Z.mul Z.opp Z.of_N Z.to_N
@@ -16,4 +16,6 @@ Extraction "Extract/model.ml"
   s_enc s_refs_of tval_ok sop sstep
   serialize_dict key_bits dict_set parse_hashmap hashmap_parse s_load_dict parse_aug_edge parse_fuel
   detect_label_type s_label_kind nbitlen
-  address address_of_str to_str address_eqb address_pyhash.
+  address address_of_str to_str address_eqb address_pyhash
+  vdesc check_block_signatures node_id_short to_sign
+  channel mk_channel cipher_params encrypt decrypt get_key_aes_id.
